@@ -327,7 +327,9 @@ pub async fn run(cx: &mut Ctx) {
                     // not this property's business: the statement is retried with the optimizer
                     // switched off, which cannot cure a damaged table.
                     let mut cured = false;
-                    if p == "C03" && reopened && s.is_write() {
+                    // (only statements the model knows to be valid)
+                    let known_valid = !matches!(expect, Expect::Unknown) && !matches!(s, Stmt::Raw(_));
+                    if p == "C03" && reopened && s.is_write() && known_valid {
                         let _ = db.exec("PRAGMA disable_optimizer").await;
                         let retry = db.exec(&sql).await;
                         let _ = db.exec("PRAGMA enable_optimizer").await;
@@ -340,7 +342,7 @@ pub async fn run(cx: &mut Ctx) {
                             model.apply(s);
                         }
                     }
-                    if p == "C03" && reopened && s.is_write() && !cured {
+                    if p == "C03" && reopened && s.is_write() && known_valid && !cured {
                         cx.violate(
                             Violation::new(
                                 "C03",
